@@ -159,8 +159,7 @@ class CreditsDriver(MachineDriver):
             self.stat("toggles")
         elif op[0] == "end_game":
             self.game_stopped_at = None
-            self.m.game.end_game()
-            self.loop.advance(0.05)
+            fakegame.end_game(self.sys)
             self._timeouts(self.game_stopped_at if self.game_stopped_at is not None else self.loop.time())
 
     def after_time(self):
@@ -256,7 +255,9 @@ class CreditsDriver(MachineDriver):
         g = self.m.game
         return (self.units, self.cum % self.p.window, self.free, g.num_players if g else None,
                 None if self.frac_at is None else r6(self.frac_at - now),
-                None if self.exp_at is None else r6(self.exp_at - now), self.rel_timers())
+                None if self.exp_at is None else r6(self.exp_at - now), self.rel_timers(), self.modes_fp(), self.task_fp(),
+                self.timer_ambiguous, (g.player.ball if g.player else None, g.ending) if g else None,
+                self.m.playfield.balls)
 
     def observe(self):
         return {"config": self.key, "units": self.m.variables.get_machine_var("credit_units"),
